@@ -409,6 +409,7 @@ def dispatch_trace(serial_qn, parallel_qn, forwarded):
 @contract("toasty.pyramid.Pyramid.visit_leaves")
 def _(c):
     c.self_type("Pyramid", **PYRAMID_FIELDS)
+    c.requires("self.depth >= 0 and self._apex.n >= 0 and self._apex.x >= 0 and self._apex.y >= 0 and self._apex.n <= self.depth", name="valid_pyramid")
     c.args(callback="callback", parallel="int", cli_progress="bool")
     c.may_raise("CallbackError", "serial mode propagates callback errors")
     c.may_raise("WorkerFailedError", "parallel mode reports failed workers")
@@ -507,6 +508,7 @@ def walk_serial_trace(m, path, fr, env, outcome, value, exc):
 @contract("toasty.pyramid.Pyramid._walk_serial")
 def _(c):
     c.self_type("Pyramid", **PYRAMID_FIELDS)
+    c.requires("self.depth >= 0 and self._apex.n >= 0 and self._apex.x >= 0 and self._apex.y >= 0 and self._apex.n <= self.depth", name="valid_pyramid")
     c.args(callback="callback", cli_progress="bool")
     c.loop(0, summarise="stateless")
     c.may_raise("CallbackError", "serial mode: an exception of the callback propagates to the caller")
